@@ -154,6 +154,29 @@ def long_history(tier):
     return fn
 
 
+def zones(b, sym):
+    """the time in the manifest name is UTC whatever the local zone: fixed offsets, zones with DST rules in or out of DST"""
+    std = 60 * sym.choose("std_offset_minutes", [0, 600, -300, 330])
+    has_dst = sym.flag("zone_has_dst_rules")
+    dst_now = sym.flag("dst_in_force_now") if has_dst else False
+    now = b.current_now()
+    b.set_zone(std, std + 3600 if has_dst else std, dst_now, dst_now, now - 86400)
+    b.mkfile("R/a.txt", 1, mtime=now - 86400)
+    for i in range(2):
+        before = state(b, ["R"])
+        r = b.run("create", root="R", h=["md5"]) if i == 0 else b.run("create", root="R", h=["md5"], sf=["R/a.txt"])
+        b.require(r.exit == 0 and r.exc is None, "create-exit-code", str(r))
+        win = b.now_window()
+        after = state(b, ["R"])
+        added = [n for n in after["R"]["names"] if n not in before["R"]["names"]]
+        b.require(len(added) == 1 and NAME_RE.match(added[0]) is not None, "manifest-name-shape", str(added))
+        import calendar
+        t_name = calendar.timegm(tuple(int(x) for x in re.match(r"(\d{4})-(\d{2})-(\d{2})_(\d{2})(\d{2})(\d{2})", NAME_RE.match(added[0]).group(3)).groups()))
+        b.require(win[0] - 1 <= t_name <= win[1] + 1, "manifest-name-utc-time",
+                  "%s does not carry the UTC time of the run (window %s; zone std %+d min, DST rules %s, in force %s)" % (added[0], win, std // 60, has_dst, dst_now))
+        b.require(after["R"]["chain"][-1].path == added[0], "chain-entry-filename", added[0])
+
+
 def five_digits(b, sym):
     """the :04d / \\d{4,} boundary: generation 9999 -> 10000 -> 10001"""
     b.mkfile("R/clip.mov", 1)
@@ -195,6 +218,9 @@ def harnesses(tier):
                     what="10-12 (thorough -14) consecutive create / create -sf runs in a folder named 'A001[C002] Übung 日' (flat or with a nested history, "
                          "same or different clock second): two-digit generation numbers, chain order, names",
                     bounds={"runs": "10-12 / 10-14", "root folder name": "A001[C002] Übung 日"}, outside=[]),
+            Harness("c06-zones", zones, frontier=4, budget_s=600, real_opts={"clock": "real"},
+                    what="manifest names under 4 standard offsets, with / without daylight-saving rules, DST in force or not: the name carries UTC",
+                    bounds={"std offsets (min)": [0, 600, -300, 330]}, outside=[]),
             Harness("c06-five-digits", five_digits, frontier=2, budget_s=600,
                     what="a history whose highest generation is 9998 / 9999 / 10000 / 99999 (reached by renumbering a committed generation): three "
                          "more runs are numbered max+1, chained, and reload in numeric order",
